@@ -33,4 +33,21 @@ CHECKS = {
         "quick": {"shards": 16, "parallel": 16, "timeout": 600, "min_nontrivial": 100},
         "thorough": {"shards": 16, "parallel": 16, "timeout": 3000, "min_nontrivial": 1000},
     },
+    "C20": {
+        "test": "TestVF_C20", "race": False, "instrument": False, "level": "exploration", "rlimit_as_gb": 4,
+        "exhaustive_key": "widths_exhaustive_batteries",
+        "exhaustive_note": "exhaustive only over widths 1..500 for the fixed battery of (name, count, size, history) tuples; everything else is sampled",
+        "rule": "real textProgressBar with a recording writer and a virtual clock (timeNowFunc); after every call each written string is stripped of zero-width control sequences (CR, CSI sequences incl. SGR/cursor, tmux octal wrapper decoded) and its runewidth display width must be <= the effective width (columns, or pane-1) whenever that is >= 5; percentage must parse, lie in 0..100 and not decrease between two onName calls; no call may panic; the child runs with RLIMIT_AS 4 GiB so an allocation blow-up kills it and is attributed to the journalled case. Workload: widths 1..500 exhaustively x a battery of 40 (name class, count, size, history) tuples, plus seeded cases over widths x names (ASCII/CJK/emoji/combining/control/invalid UTF-8) x counts x sizes 0..2^62 x histories (monotone, repeats, regressions, protocol resume sequence, hostile steps beyond the size/negative/2^63-1) x pane/CR/tmux-prefix modes x column changes x colour pair. non-trivial = at least one line was rendered and checked; distinct = distinct parameter tuples",
+        "assumptions": ["display width is measured with go-runewidth, the model the project itself uses", "control characters inside names are zero-width by that model; cursor movement caused by them is not claimed"],
+        "quick": {"shards": 16, "parallel": 16, "timeout": 600, "min_nontrivial": 100},
+        "thorough": {"shards": 16, "parallel": 16, "timeout": 3000, "min_nontrivial": 1000},
+    },
+    "C16": {
+        "test": "TestVF_C16", "race": True, "level": "exploration",
+        "race_anchor_files": ["buffer.go"],
+        "rule": "payload lines '#TYPE:payload' over the protocol alphabet (lengths 1..2000, incl. runs of one letter) rendered with the documented noise: tmux reader - CR LF wraps at any position and multiplicity (also directly before the terminating LF), '#'-free junk before the marker, tmux status DCS pairs after the marker; Windows reader - CSI sequences, digit-parameterised cursor moves, padding (space, tab, CR, LF, BS), the re-print pattern, the cursor-home pattern, '!' inside CSI, trailing junk after the terminator; fed through addReceivedData in every two-way cut / one-byte reads (single-item part, every insertion position) or seeded segmentations (random part) and read back with the real recvLine; a Ctrl-C inserted anywhere before the terminator must interrupt. non-trivial = at least one noise item or an interrupt was present and the line(s) were compared; distinct = (reader, lines, noise kinds, segments, policy, length)",
+        "assumptions": ["noise grammars are no wider than what buffer.go/transfer.go and the repository's captured vectors document (see DESIGN C16): LF together with a digit-parameterised cursor move between two payload letters only occurs as the re-print or cursor-home pattern"],
+        "quick": {"shards": 16, "parallel": 16, "timeout": 600, "min_nontrivial": 100},
+        "thorough": {"shards": 16, "parallel": 16, "timeout": 3000, "min_nontrivial": 1000},
+    },
 }
